@@ -482,6 +482,9 @@ Proof.
   apply xor_bytes_cancel_l in H; [exact H|lia|lia].
 Qed.
 
+(* well-formed blocks: 16 bytes, each < 256 *)
+Definition blk_ok (x : list N) : Prop := length x = 16 /\ bytes_ok x = true.
+
 Section GcmForgery.
   Variable E : list N -> list N.
   Hypothesis E_len : forall x, length (E x) = 16.
@@ -521,20 +524,141 @@ Section GcmForgery.
     eapply gcm_accept_other_iff_ghash_collision; eassumption.
   Qed.
 
-  (* nonce changes, 12-byte IVs, 16-byte tag: rejected when E_K is injective on blocks
+  (* nonce changes, 12-byte IVs, 16-byte tag: rejected when E_K is injective on well-formed blocks
      (premise [E_inj]; a theorem for SM4 and AES via their inverse ciphers) *)
   Theorem gcm_nonce_change_rejected_partial chk iv iv' aad c tag p :
-    (forall x x', E x = E x' -> x = x') ->                   (* E_inj *)
+    (forall x x', blk_ok x -> blk_ok x' -> E x = E x' -> x = x') ->     (* E_inj *)
     length tag = 16 -> length iv = 12 -> length iv' = 12 -> iv <> iv' ->
+    bytes_ok iv = true -> bytes_ok iv' = true ->
     gcm_decrypt E chk iv aad c tag = Ok p ->
     forall p', gcm_decrypt E chk iv' aad c tag <> Ok p'.
   Proof.
-    intros Einj Hl Hi Hi' Hne H1 p' H2. apply Hne.
+    intros Einj Hl Hi Hi' Hne Ho Ho' H1 p' H2. apply Hne.
     apply gcm_decrypt_ok_tag in H1. apply gcm_decrypt_ok_tag in H2.
     rewrite Hl in *. rewrite firstn_all2 in H1, H2 by (rewrite tag16_length; lia).
     unfold gcm_tag16 in *. rewrite <- H2 in H1.
     apply xor_bytes_cancel_r in H1; [| rewrite E_len, ghash_length; reflexivity ..].
-    apply Einj in H1. unfold gcm_j0 in H1. rewrite Hi, Hi' in H1. cbn [Nat.eqb] in H1.
-    apply app_inv_tail in H1. exact H1.
+    unfold gcm_j0 in H1. rewrite Hi, Hi' in H1. cbn [Nat.eqb] in H1.
+    apply Einj in H1.
+    - apply app_inv_tail in H1. exact H1.
+    - split; [rewrite app_length, Hi; reflexivity|]. unfold bytes_ok in *. rewrite forallb_app, Ho. reflexivity.
+    - split; [rewrite app_length, Hi'; reflexivity|]. unfold bytes_ok in *. rewrite forallb_app, Ho'. reflexivity.
   Qed.
 End GcmForgery.
+
+(* ===================== encrypt side: streaming = one-shot for every chunking ===================== *)
+Lemma gcm_guard_true cnt n : (cnt + N.of_nat n <= int_max)%N -> gcm_guard cnt n = true.
+Proof.
+  intros Hb. unfold gcm_guard. apply andb_true_intro. split; apply N.leb_le.
+  - lia.
+  - unfold gcm_max_pt. unfold int_max in Hb.
+    change (2 ^ 31 - 1)%N with 2147483647%N in Hb. change ((2 ^ 32 - 2) * 16)%N with 68719476704%N. lia.
+Qed.
+
+Section GcmEncStream.
+  Variable E : list N -> list N.
+  Variables (iv aad : list N) (taglen : nat).
+  Hypothesis args_ok : gcm_iv_ok (length iv) && gcm_tag_ok taglen = true.
+
+  Notation y := (gcm_j0 E iv).
+  Notation c0 := (ctr32_incr y).
+  Notation h := (gcm_H E).
+
+  (* state after the plaintext bytes x: counter context after x, GHASH context after the
+     ciphertext produced so far *)
+  Definition gcm_enc_st_of (x : list N) : gcm_st :=
+    mkGcm (ctr_state ctr32_incr c0 x) (gh_ctx_of h aad (ctr_out E ctr32_incr c0 x)) (E y) taglen.
+
+  Lemma gcm_enc_update_of x d win :
+    (N.of_nat (length x) + N.of_nat (length d) <= int_max)%N ->
+    exists o, gcm_enc_update E (gcm_enc_st_of x, N.of_nat (length x), win) d
+              = Ok ((gcm_enc_st_of (x ++ d), N.of_nat (length (x ++ d)), win), o) /\
+              ctr_out E ctr32_incr c0 (x ++ d) = ctr_out E ctr32_incr c0 x ++ o.
+  Proof.
+    intros Hb. unfold gcm_enc_update.
+    rewrite (gcm_guard_true (N.of_nat (length x)) (length d) Hb). cbn [negb].
+    unfold gcm_enc_st_of. cbn [g_enc g_mac g_Y g_taglen].
+    change (ctr32_update E) with (ctr_update E ctr32_incr).
+    destruct (ctr_update_state E ctr32_incr c0 x d) as [H1 H2].
+    rewrite H1 in *. cbn [snd] in H2.
+    eexists. split; [|exact H2].
+    rewrite ghash_update_ctx_of, <- H2.
+    rewrite app_length, Nat2N.inj_add. reflexivity.
+  Qed.
+
+  Lemma gcm_enc_run_of chunks : forall x win,
+    (N.of_nat (length x) + N.of_nat (length (concat chunks)) <= int_max)%N ->
+    gcm_enc_run E (gcm_enc_st_of x, N.of_nat (length x), win) chunks (ctr_out E ctr32_incr c0 x)
+    = Ok ((gcm_enc_st_of (x ++ concat chunks), N.of_nat (length (x ++ concat chunks)), win),
+          ctr_out E ctr32_incr c0 (x ++ concat chunks)).
+  Proof.
+    induction chunks as [|d r IH]; intros x win Hb; cbn [gcm_enc_run concat] in *.
+    - rewrite app_nil_r. reflexivity.
+    - rewrite app_length, Nat2N.inj_add in Hb.
+      destruct (gcm_enc_update_of x d win ltac:(lia)) as (o & HU & Ho).
+      rewrite HU, <- Ho, app_assoc. apply IH. rewrite app_length, Nat2N.inj_add. lia.
+  Qed.
+
+  Theorem gcm_encrypt_stream_eq_oneshot chunks :
+    (N.of_nat (length (concat chunks)) <= int_max)%N ->
+    gcm_encrypt_stream E 16 iv aad taglen chunks =
+    match gcm_encrypt E true iv aad (concat chunks) taglen with
+    | Ok (c, t) => Ok (c ++ t)
+    | _ => Err
+    end.
+  Proof.
+    intros Hb. unfold gcm_encrypt_stream. rewrite (gcm_init_ok E iv aad taglen args_ok).
+    assert (H0 : gcm_st0 E iv aad taglen = gcm_enc_st_of [])
+      by (unfold gcm_st0, gcm_enc_st_of; rewrite ghash_init_ctx_of; reflexivity).
+    rewrite H0.
+    pose proof (gcm_enc_run_of chunks [] [] ltac:(cbn [length]; lia)) as HR.
+    cbn [app length N.of_nat] in HR. change (ctr_out E ctr32_incr c0 []) with (@nil N) in HR.
+    rewrite HR.
+    set (p := concat chunks) in *.
+    unfold gcm_encrypt. rewrite args_ok. cbn [andb].
+    assert (Hmax : (N.of_nat (length p) <=? gcm_max_pt)%N = true).
+    { apply N.leb_le. unfold int_max in Hb. change (2 ^ 31 - 1)%N with 2147483647%N in Hb.
+      change gcm_max_pt with 68719476704%N. lia. }
+    rewrite Hmax. cbn [negb].
+    assert (Ht : (16 <? taglen) = false).
+    { apply andb_prop in args_ok. destruct args_ok as [_ Ht]. unfold gcm_tag_ok in Ht.
+      apply andb_prop in Ht. destruct Ht as [_ Ht]. apply Nat.leb_le in Ht. apply Nat.ltb_ge. exact Ht. }
+    rewrite Ht. f_equal.
+    unfold gcm_enc_finish, gcm_enc_st_of. cbn [fst g_enc g_mac g_Y g_taglen].
+    rewrite ghash_update_ctx_of, ghash_finish_ctx_of.
+    pose proof (ctr_finish_total E ctr32_incr c0 p) as HF.
+    unfold ctr32_finish. rewrite app_assoc, HF.
+    unfold ctr32_crypt, gcm_tag16. rewrite (xor_bytes_comm (E y)). reflexivity.
+  Qed.
+End GcmEncStream.
+
+(* streaming encryption under one chunking, streaming decryption under any other: round trip *)
+Theorem gcm_stream_dec_accepts_enc E iv aad taglen chunks1 chunks2 s :
+  (forall x, length (E x) = 16) ->
+  gcm_iv_ok (length iv) && gcm_tag_ok taglen = true ->
+  (N.of_nat (length (concat chunks1)) + 16 <= int_max)%N ->
+  gcm_encrypt_stream E 16 iv aad taglen chunks1 = Ok s ->
+  concat chunks2 = s ->
+  gcm_decrypt_stream E 16 iv aad taglen chunks2 = Ok (concat chunks1).
+Proof.
+  intros E_len Hargs Hb Henc Hs.
+  rewrite (gcm_encrypt_stream_eq_oneshot E iv aad taglen Hargs) in Henc by lia.
+  destruct (gcm_encrypt E true iv aad (concat chunks1) taglen) as [[c t]| |] eqn:E1; try discriminate.
+  injection Henc as Hs'. rewrite <- Hs' in Hs. clear Hs' s.
+  pose proof (gcm_dec_accepts_enc E E_len iv aad taglen true _ _ _ E1) as Hdec.
+  assert (Ht16 : taglen <= 16).
+  { apply andb_prop in Hargs. destruct Hargs as [_ Ht]. unfold gcm_tag_ok in Ht.
+    apply andb_prop in Ht. destruct Ht as [_ Ht]. apply Nat.leb_le in Ht. exact Ht. }
+  assert (Hlens : length t = taglen /\ length c = length (concat chunks1)).
+  { unfold gcm_encrypt in E1. destruct (true && _); [discriminate|]. destruct (16 <? taglen); [discriminate|].
+    inversion E1; subst. split.
+    - rewrite firstn_length, (tag16_length E E_len). lia.
+    - unfold ctr32_crypt. apply (ctr_crypt_length E E_len [] 0). lia. }
+  destruct Hlens as [Htl Hcl].
+  rewrite (gcm_stream_eq_oneshot E E_len iv aad taglen Hargs chunks2).
+  - rewrite Hs, app_length, Htl. replace (length c + taglen - taglen) with (length c) by lia.
+    rewrite firstn_app, skipn_app, Nat.sub_diag, firstn_all, skipn_all, firstn_O, skipn_O, app_nil_r.
+    exact Hdec.
+  - rewrite Hs, app_length, Htl, Hcl. unfold int_max in *. lia.
+  - rewrite Hs, app_length, Htl. lia.
+Qed.
